@@ -395,7 +395,7 @@ def histories():
 @st.composite
 def cases(draw):
     kind = draw(st.sampled_from(["cart", "cart", "cart", "quad_ascii", "quad_csv"]))
-    mc = {"start": draw(st.sampled_from(["4.95", "5.95", "2.5", "5.0", "4.0"])), "step": draw(st.sampled_from(["0.1", "0.2", "0.5", "1"])), "n": draw(st.integers(1, 6))}
+    mc = {"start": draw(st.sampled_from(["4.95", "5.95", "2.5", "5.0", "4.0", "4.955", "3.125"])), "step": draw(st.sampled_from(["0.1", "0.2", "0.5", "1", "0.125", "0.025", "0.25"])), "n": draw(st.integers(1, 6))}
     if kind == "cart":
         rc = draw(lattice.lattices(max_n=8, flags=True))
         nc = len(rc["cells"])
